@@ -27,6 +27,7 @@ pub fn info() -> super::Info {
             "faults are process death (SIGKILL delivered on entry of a system call) and failing system calls (ENOSPC, EIO) with the page cache intact: no power loss, no torn write inside one write(2)",
             "the client runs with a current-thread runtime and one blocking thread, so that the sequence of datastore system calls is reproducible between pass 1 and pass 2; an injected run whose trace does not show the fault on the expected call is discarded as inconclusive",
             "requires ptrace (strace 6.1); if strace cannot run the check reports exit 2, never a violation",
+            "the child runs in a private PID namespace (unshare --pid) so that its process id, and therefore the names of the datastore's temporary files, are identical in the recording and in every injected run",
         ],
     }
 }
@@ -180,6 +181,11 @@ fn parse_trace(text: &str, datastore: &str) -> Vec<Call> {
     out
 }
 
+fn unshare_available() -> bool {
+    static OK: std::sync::OnceLock<bool> = std::sync::OnceLock::new();
+    *OK.get_or_init(|| Command::new("unshare").args(["--pid", "--fork", "true"]).output().map(|o| o.status.success()).unwrap_or(false))
+}
+
 fn strace_available() -> bool {
     Command::new("strace")
         .args(["-f", "-o", "/dev/null", "-e", "trace=write", "true"])
@@ -194,7 +200,15 @@ fn strace_available() -> bool {
 fn run_child(work: &Path, repo: &Path, datastore: &Path, inject: Option<&str>, path_filter: Option<&Path>, tag: &str) -> (Option<i32>, String) {
     let exe = std::env::current_exe().expect("current exe");
     let trace = work.join(format!("trace-{tag}.txt"));
-    let mut cmd = Command::new("strace");
+    // a private PID namespace makes the child's process id the same in every run, and with it the
+    // names of the datastore's temporary files (`.tmp.<pid>.<n>`), which pass 2 must name for -P
+    let mut cmd = if unshare_available() {
+        let mut c = Command::new("unshare");
+        c.args(["--pid", "--fork", "strace"]);
+        c
+    } else {
+        Command::new("strace")
+    };
     cmd.args(["-f", "-y", "-qq", "-s", "0", "-o"]).arg(&trace).args(["-e", &format!("trace={TRACED}")]);
     if let Some(p) = path_filter {
         cmd.arg("-P").arg(p);
